@@ -110,6 +110,32 @@ def replay_dq_identifier(args):
     return got != want, info, 'dquote-identifier:%s:split' % d, 'double-quoted identifier %s parsed as parts %r' % (s, got)
 
 
+def replay_dot(kind):
+    def replay(args):
+        which = args['which']
+        if kind == 'dquote':
+            d = ('mysql', 'mindsdb')[which]
+            tail, want = args['s'], [args['s'][1:-1]]
+        elif kind == 'identifier':
+            d = ('sqlite', 'mysql', 'mindsdb')[which]
+            tail = args['s']
+            want = [tail] if tail[0] != '`' else [tail[1:-1]]
+        else:
+            d = ('sqlite', 'mysql', 'mindsdb')[which]
+            tail, want = str(args['n']), [str(args['n'])]
+        sql = 'SELECT * FROM h1.h2.%s' % tail
+        ast, err = _parse(sql, d)
+        want = ['h1', 'h2'] + want
+        info = {'sql': sql, 'dialect': d, 'denoted': want}
+        if ast is None:
+            info['error'] = repr(err)[:200]
+            return _internal(err), info, 'dotted-path:%s:%s:internal-error' % (d, kind), 'dotted path %s raises %s' % (sql, type(err).__name__)
+        got = getattr(ast.from_table, 'parts', None)
+        info['observed'] = got
+        return got != want, info, 'dotted-path:%s:%s' % (d, kind), '%s: %s parsed as parts %r, denoted %r' % (d, sql, got, want)
+    return replay
+
+
 def replay_variable(args):
     d = ('mysql', 'mindsdb')[args['which'] % 2]
     s = args['s']
@@ -137,6 +163,9 @@ def specs(tier):
         dict(fn='path_str', twin='path_str_reach', replay=replay_path),
         dict(fn='dq_identifier', twin='dq_identifier_reach', replay=replay_dq_identifier),
         dict(fn='variable_token', twin='variable_token_reach', replay=replay_variable),
+        dict(fn='dot_dquote', twin='dot_reach', replay=replay_dot('dquote')),
+        dict(fn='dot_identifier', twin='dot_reach', replay=replay_dot('identifier')),
+        dict(fn='dot_integer', twin='dot_reach', replay=replay_dot('integer')),
     ]
 
 
